@@ -12,6 +12,7 @@ import sys
 HERE = os.path.dirname(os.path.dirname(os.path.abspath(__file__)))
 sys.path.insert(0, HERE)
 sys.path.insert(0, "/repo/src")
+sys.path.insert(0, os.path.join(HERE, ".deps"))
 
 BASELINE_CMD = json.load(open("/root/.vp/BASELINE.json"))["cmd"]
 props = [json.loads(l) for l in open(os.path.join(HERE, "properties.jsonl"))]
